@@ -20,11 +20,13 @@
 EXTENDS Naturals, Sequences
 
 VARIABLES exists, cc, cu, kc, de, du, keyVer, edbVer, st
+\* @type: <<Bool, Bool, Bool, Bool, Bool, Bool, Int, Int, Int>>;
 cvars == <<exists, cc, cu, kc, de, du, keyVer, edbVer, st>>
 
 CInit == /\ exists = FALSE /\ cc = FALSE /\ cu = FALSE /\ kc = FALSE /\ de = FALSE /\ du = FALSE
          /\ keyVer = 0 /\ edbVer = 0 /\ st = 0
 
+\* @type: <<Bool, Bool, Bool, Bool, Bool>>;
 Flags == <<cc, cu, kc, de, du>>
 
 (* create service: a configuration the scheme cannot be instantiated with does not create a service *)
